@@ -341,6 +341,47 @@ func judgeRule(schemas ast.Schemas, rs RuleSpec, pkg string, before, after ast.B
 			}
 		}
 		switch rs.Kind {
+		case "merge_into":
+			// documented effect: every option of the source that is not excluded is added to
+			// the destination. Judged only for a consistent configuration (one destination,
+			// one source, both spelt exactly) - what a misspelt name selects is left open.
+			if rs.Misconfigured {
+				break
+			}
+			for _, b := range before {
+				if len(b.Options) == 0 || b.For.SelfRef.ReferredPkg != pkg || b.Name != rs.SelA {
+					continue
+				}
+				var src *ast.Builder
+				for i := range before {
+					if before[i].For.SelfRef.ReferredPkg == b.For.SelfRef.ReferredPkg && before[i].Name == rs.Source {
+						src = &before[i]
+						break
+					}
+				}
+				if src == nil {
+					continue
+				}
+				added := 0
+				for _, o := range src.Options {
+					excluded := false
+					for _, n := range rs.Names {
+						if n == o.Name {
+							excluded = true
+						}
+					}
+					if !excluded {
+						added++
+					}
+				}
+				as := afterByID[builderID(b)]
+				if len(as) != 1 {
+					continue
+				}
+				if len(as[0].Options) != len(b.Options)+added {
+					return "contract|merge_into|options-not-added", fmt.Sprintf("merge_into %s <- %s: destination %s has %d options after, %d before, the source offers %d", rs.SelA, rs.Source, builderID(b), len(as[0].Options), len(b.Options), added)
+				}
+			}
 		case "omit":
 			for _, b := range before {
 				if builderSelected(schemas, rs, pkg, b) && len(afterByID[builderID(b)]) > 0 {
@@ -810,6 +851,35 @@ func c17Check(ctx *Ctx, res *CaseResult, dir string, p *c17Payload, regen *Rand)
 					c := GenRuleSpec(regen, bvs, p.Pkgs[len(p.Pkgs)-1], "builder", "merge_into")
 					if !c.Misconfigured && (c.Source == p.Rules[len(p.Rules)-1].As || try == 7) {
 						rs, pkg = c, p.Pkgs[len(p.Pkgs)-1]
+						break
+					}
+				}
+			}
+			// after a builder was renamed or duplicated, a consistent merge_into whose
+			// *destination* is addressed by the name it now has (the rule selects by builder
+			// name, not by the object built): the copy is a bystander, the renamed one the target
+			if len(p.Rules) > 0 && p.Rules[len(p.Rules)-1].Scope == "builder" && (p.Rules[len(p.Rules)-1].Kind == "rename" || p.Rules[len(p.Rules)-1].Kind == "duplicate") && regen.Chance(1, 2) {
+				last := p.Rules[len(p.Rules)-1]
+				for try := 0; try < 24; try++ {
+					c := GenRuleSpec(regen, bvs, p.Pkgs[len(p.Pkgs)-1], "builder", "merge_into")
+					if c.Misconfigured {
+						continue
+					}
+					hit := c.SelA == last.As
+					if last.Kind == "duplicate" && !hit {
+						for _, bv := range bvs {
+							if bv.Name == last.As && bv.Pkg == p.Pkgs[len(p.Pkgs)-1] {
+								for _, o := range bvs {
+									if o.Pkg == bv.Pkg && o.Object == bv.Object && o.Name == c.SelA && o.Name != bv.Name {
+										hit = true
+									}
+								}
+							}
+						}
+					}
+					if hit {
+						rs, pkg = c, p.Pkgs[len(p.Pkgs)-1]
+						ctx.Count("merge_into towards a renamed or duplicated destination", 1)
 						break
 					}
 				}
